@@ -113,8 +113,13 @@ def gen_doctest(rng):
     if rng.random() < 0.3:
         lines += [pad + 'Some prose first.', '']
     n = rng.randint(1, 7)
+    prev_end = 'blank'
     for i in range(n):
         k = 10 + i
+        if i and prev_end in ('want', 'blank') and rng.random() < 0.25:
+            # the standard module lets every example have its own indentation; after a want, a blank line or prose
+            # the next example may sit deeper or shallower (directly after a source line without want: class F6e)
+            pad = ' ' * rng.choice([0, 2, 4, 8])
         src, directive, _ = example_sources(rng, k)
         if directive == 'SKIP':
             out, exc = '', None
@@ -128,13 +133,17 @@ def gen_doctest(rng):
             pass
         if len(src) > 1 and src[-1].startswith('    ') and rng.random() < 0.5:
             block.append(pad + '...')              # terminating bare continuation line
-        block += [pad + w for w in render_want(out, exc, directive, rng)] if directive != 'SKIP' else [pad + 'anything at all']
+        wl = [pad + w for w in render_want(out, exc, directive, rng)] if directive != 'SKIP' else [pad + 'anything at all']
+        block += wl
         lines += block
+        prev_end = 'want' if wl else 'src'
         r = rng.random()
         if r < 0.2:
             lines.append('')
+            prev_end = 'blank'
         elif r < 0.3:
             lines += ['', pad + 'Some prose between examples.', '']
+            prev_end = 'blank'
     return '\n'.join(lines) + '\n'
 
 
